@@ -98,6 +98,9 @@ def judge(kind, cards, style, audit_type, thr, feats=None):
             feats.add("datum_equal_u")
     if len(d) and not out:
         asn.overstatement_assorter = orig
+        # the margin may have been set by other means than the CVR route (from tallies, by hand), which do not touch the
+        # test: put the test's bound back to its construction-time value so that set_p_values itself has to install u
+        asn.test.u = ua
         try:
             with contextlib.redirect_stdout(io.StringIO()), warnings.catch_warnings():
                 warnings.simplefilter("ignore")
